@@ -2,7 +2,7 @@
 
 use crate::engine::{CaseResult, Fail, Prop, Report, Tier};
 use crate::gen::{bits_spec, BitsSpec};
-use crate::model::{check_bitvec, Bits, Model, Plan, SetModel};
+use crate::model::{check_bitvec, Bits, Plan, SetModel};
 use crate::props::c01::{build_route, raw_by_push_bit};
 use crate::props::c02::build_sparse;
 use crate::props::c03::build_rl;
